@@ -26,6 +26,7 @@ def _c13_small(args):
             for mask in sorted({0, 1, m - 1, m >> 1, (m >> 1) - 1, -1, -m, m, m + 1, 2 * m - 1, -2, 5, (idx * 7) % m}):
                 for side in ('right', 'left'):
                     out.append(x_bits.observe_bitwise(fx, np, [pid], op, tx, xs, mask=mask, side=side))
+                out.append(x_bits.observe_bitwise(fx, np, [pid], op, tx, xs, mask=mask, side='right', mask_as=['uint8', 'int8', 'int16', 'uint16', 'int32', 'int64', 'uint64', '0d'][(mask + idx) % 8]))
             out.append(x_bits.observe_bitwise(fx, np, [pid], op, tx, [lo], mask=m - 1, side='left', scalar=True))
     if tx == ty:
         for w2 in (tx[1] + 1, max(1, tx[1] - 1), tx[1] + 8):
@@ -59,6 +60,8 @@ def _c13_wide(args):
             mask = rng.choice([(1 << w) - 1, 1 << (w - 1), rng.getrandbits(w), rng.getrandbits(w + 8), -1, -rng.getrandbits(w)])
             out.append(x_bits.observe_bitwise(fx, np, [pid], op, tx, xs, mask=mask, side=rng.choice(['left', 'right'])))
             out.append(x_bits.observe_bitwise(fx, np, [pid], op, tx, [rng.choice(xs)], mask=mask, side=rng.choice(['left', 'right']), scalar=True))
+            m2 = rng.choice([(1 << w) - 1, 1 << (w - 1), rng.getrandbits(w), rng.getrandbits(max(1, w - 1)), 0x55, -1, -2])
+            out.append(x_bits.observe_bitwise(fx, np, [pid], op, tx, xs, mask=m2, side='right', mask_as=rng.choice(['uint8', 'int8', 'int16', 'uint16', 'int32', 'uint32', 'int64', 'uint64', '0d'])))
         # N-D operands whose rows differ in magnitude (rows that fit int64 next to rows that do not)
         small = [min(hi, max(lo, c)) for c in (0, 1, 5, rng.randint(0, 100), -1 if tx[0] else 2, rng.randint(0, 1 << 20))]
         mixed = small + xs[:6]
